@@ -109,6 +109,8 @@ func runSolverTimed(s solverSpec, file string, ms int, hardMs int) ([]string, []
 	}
 	r, t, e, err := runSolverTimedNoCache(s, file, ms, hardMs)
 	if err == nil {
+		// (an "unknown" here is harmless to remember: it only sends the obligation to the
+		// standalone race, whose indefinite answers are never cached)
 		cachePut(key, &cachedRun{Results: r, Times: t, Errs: e})
 	}
 	return r, t, e, err
@@ -168,7 +170,10 @@ func runSolverCtx(parent context.Context, s solverSpec, file string, ms int, har
 	}
 	out, err := runSolverCtxNoCache(parent, s, file, ms, hardMs)
 	if err == nil && parent.Err() == nil {
-		cachePut(key, &cachedRun{Out: out})
+		first := strings.TrimSpace(strings.SplitN(out, "\n", 2)[0])
+		if first == "sat" || first == "unsat" {
+			cachePut(key, &cachedRun{Out: out})
+		}
 	}
 	return out, err
 }
@@ -425,4 +430,13 @@ func trimModel(out string) string {
 		return out[:200000]
 	}
 	return out
+}
+
+func allDefinite(rs []string) bool {
+	for _, r := range rs {
+		if r != "sat" && r != "unsat" {
+			return false
+		}
+	}
+	return len(rs) > 0
 }
